@@ -29,7 +29,7 @@ def gen(rng, tier):
     n = 1500 if tier == "quick" else 60000
     asts = []; empties = []
     for _ in range(n):
-        dl = rng.choice(grammar.DELIMS); cm = rng.choice(grammar.COMMENTS)
+        dl = rng.choice(grammar.DELIMS); cm = rng.choice(grammar.COMMENTS + [b"#\xa7", b"\xa7\xa4"])       # also comment characters above 127
         empty_set = rng.random() < 0.1        # the empty comment set stands for "#"
         if empty_set: cm = b"#"
         ls = [l for l in grammar.gen_file(rng, dl, cm, maxlines=8) if l[0] != "T"]
